@@ -245,6 +245,61 @@ def judge(chk, p, src, lib, rendered, doc, label, final, model, hash2idx, html0,
                   json.dumps([[d.get("clsname"), d.get("base"), d["exp"]] for d in lib], ensure_ascii=False))
 
 
+def run_redefine(chk, n):
+    """Histories of pages in one process in which a component class is *defined again* under the same name and module
+    (a class factory, a reloaded module) with other Media files: each page gets the Media of the classes rendered into
+    it — of the class object that was rendered, not of an earlier class of that name (seeded/C04-4).  Inline js / css
+    are left out of these classes: what a re-defined class's *inline* script resolves to is the separate finding listed
+    under C19 (script cache keyed by import path)."""
+    from django.template import Context, Template
+    from django_components import Component, registry
+    from django_components.dependencies import render_dependencies
+
+    for i in range(n):
+        r = core.rng(PROP, "redefine", i)
+        name = "c04redef%d" % i
+        steps = []
+        for k in range(r.randint(2, 4)):
+            js = ["/r/%d_%d_%s.js" % (i, k, x) for x in r.sample("abc", r.randint(0, 2))]
+            css = ["/r/%d_%d_%s.css" % (i, k, x) for x in r.sample("abc", r.randint(0, 2))]
+            steps.append((js, css, r.choice(["document", "fragment"]), r.random() < 0.3))
+        seen_urls = set()
+        for k, (js, css, mode, dict_css) in enumerate(steps):
+            media = type("Media", (), {"js": list(js), "css": ({"print": list(css)} if dict_css and css else list(css))})
+            cls = type("C04Redefined", (Component,), {"template": "<b>w</b>", "Media": media, "__module__": "harness.props.c04"})
+            registry.register(name, cls)
+            try:
+                html = Template("<html><head></head><body>{% component '" + name + "' / %}</body></html>").render(Context({}))
+                final = str(render_dependencies(html, type=mode))
+            except Exception as e:  # noqa
+                final = "ERR:" + type(e).__name__
+            finally:
+                registry.unregister(name)
+            chk.count("redefine", 1, validated=1)
+            chk.branch(["redefine:" + mode])
+            text = final
+            for blob in re.findall(r'data-json="([^"]*)"|<script type="application/json"[^>]*>(.*?)</script>', final, re.S):
+                for b in blob:
+                    text += " " + b
+            # the loader data is base64 inside JSON: decode whatever decodes
+            for b64 in re.findall(r"[A-Za-z0-9+/=]{16,}", final):
+                try:
+                    text += " " + base64.b64decode(b64).decode("utf-8", "ignore")
+                except Exception:
+                    pass
+            want = set(js) | set(css)
+            got = {u for u in re.findall(r"/r/\d+_\d+_[abc]\.(?:js|css)", text)}
+            seen_urls |= want
+            chk.nontrivial(("redefine", i, k))
+            if got != want or final.startswith("ERR:"):
+                chk.violation("impl-violates-spec", "redefine",
+                              {"history": [{"Media.js": s[0], "Media.css": s[1], "mode": s[2]} for s in steps[: k + 1]], "class": "C04Redefined", "registered_as": name},
+                              impl={"urls_in_output": sorted(got), "error": final if final.startswith("ERR:") else None},
+                              spec={"urls_expected": sorted(want), "clause": "every file from the Media of the rendered classes exactly once; classes that were not rendered contribute nothing"},
+                              note="page %d of the history; a class of the same name and module was rendered earlier with other Media" % (k + 1))
+                return
+
+
 def run(tier: str) -> int:
     import warnings
     warnings.simplefilter("ignore")
@@ -253,6 +308,7 @@ def run(tier: str) -> int:
     core.use_repo()
     core.django_setup()
     run_pages(chk, 300 if tier == "quick" else 6000)
+    run_redefine(chk, 25 if tier == "quick" else 400)
     chk.assumptions += [
         "isolated mode; dependency placeholders only at page level (a placeholder that is a root element of a component "
         "belongs to C08 / DESIGN §9 #28); Media URLs absolute (/m/…), so STATIC_URL plays no role",
